@@ -135,8 +135,30 @@ void sched_yield_point(uint32_t id)
 	futex_wait(&g_slots[me].go);
 }
 
+static uint64_t g_atomic_idx = 0, g_atomic_switches = 0;
+
+void sched_atomic_point()
+{
+	if (!g_sched_on || t_index < 0 || t_no_preempt != 0 || !g_plan->atomicOn) return;
+	++g_steps;
+	const uint64_t k = g_atomic_idx++;
+	if (!g_plan->atomicSwitch[k % 256]) return;
+	int others[kMaxThreads];
+	const int me = t_index;
+	const int n = runnable_others(me, others);
+	if (n == 0) return;
+	const int to = others[g_plan->atomicTarget[k % 64] % static_cast<uint32_t>(n)];
+	++g_atomic_switches;
+	note_switch(me, to, 0xA70);
+	g_cur = static_cast<uint32_t>(to);
+	futex_wake(&g_slots[to].go);
+	futex_wait(&g_slots[me].go);
+}
+
 SchedResult sched_run(const SchedPlan& plan, SchedTask task, void* arg)
 {
+	g_atomic_idx = 0;
+	g_atomic_switches = 0;
 	SchedResult res;
 	if (plan.nThreads == 0 || plan.nThreads > kMaxThreads) return res;
 	g_plan = &plan;
@@ -175,6 +197,8 @@ SchedResult sched_run(const SchedPlan& plan, SchedTask task, void* arg)
 	res.steps = g_steps;
 	res.switches = g_switches;
 	res.switchHash = g_switch_hash;
+	res.atomicPoints = g_atomic_idx;
+	res.atomicSwitches = g_atomic_switches;
 	return res;
 }
 
@@ -202,3 +226,28 @@ extern "C" void __wrap___cxa_guard_abort(void* g)
 	__real___cxa_guard_abort(g);
 	sim::sched_no_preempt_end();
 }
+
+// ------------------------------------------------------------------------------------------------
+// tsan flavour: atomic operations of instrumented code are calls into the TSan runtime; wrapped at link time, each becomes a
+// scheduling point placed immediately before the operation (the classic "preempt at synchronisation operations" strategy).
+// ------------------------------------------------------------------------------------------------
+#ifdef SIM_TSAN_ATOMIC_POINTS
+#define SIM_WRAP_ATOMIC(N, T) \
+	extern "C" T __real___tsan_atomic##N##_load(const volatile T* p, int mo); \
+	extern "C" T __wrap___tsan_atomic##N##_load(const volatile T* p, int mo) { sim::sched_atomic_point(); return __real___tsan_atomic##N##_load(p, mo); } \
+	extern "C" void __real___tsan_atomic##N##_store(volatile T* p, T v, int mo); \
+	extern "C" void __wrap___tsan_atomic##N##_store(volatile T* p, T v, int mo) { sim::sched_atomic_point(); __real___tsan_atomic##N##_store(p, v, mo); } \
+	extern "C" T __real___tsan_atomic##N##_exchange(volatile T* p, T v, int mo); \
+	extern "C" T __wrap___tsan_atomic##N##_exchange(volatile T* p, T v, int mo) { sim::sched_atomic_point(); return __real___tsan_atomic##N##_exchange(p, v, mo); } \
+	extern "C" T __real___tsan_atomic##N##_fetch_add(volatile T* p, T v, int mo); \
+	extern "C" T __wrap___tsan_atomic##N##_fetch_add(volatile T* p, T v, int mo) { sim::sched_atomic_point(); return __real___tsan_atomic##N##_fetch_add(p, v, mo); } \
+	extern "C" T __real___tsan_atomic##N##_fetch_sub(volatile T* p, T v, int mo); \
+	extern "C" T __wrap___tsan_atomic##N##_fetch_sub(volatile T* p, T v, int mo) { sim::sched_atomic_point(); return __real___tsan_atomic##N##_fetch_sub(p, v, mo); } \
+	extern "C" int __real___tsan_atomic##N##_compare_exchange_strong(volatile T* p, T* c, T v, int mo, int fmo); \
+	extern "C" int __wrap___tsan_atomic##N##_compare_exchange_strong(volatile T* p, T* c, T v, int mo, int fmo) { sim::sched_atomic_point(); return __real___tsan_atomic##N##_compare_exchange_strong(p, c, v, mo, fmo); } \
+	extern "C" int __real___tsan_atomic##N##_compare_exchange_weak(volatile T* p, T* c, T v, int mo, int fmo); \
+	extern "C" int __wrap___tsan_atomic##N##_compare_exchange_weak(volatile T* p, T* c, T v, int mo, int fmo) { sim::sched_atomic_point(); return __real___tsan_atomic##N##_compare_exchange_weak(p, c, v, mo, fmo); }
+SIM_WRAP_ATOMIC(8, char)
+SIM_WRAP_ATOMIC(32, int)
+SIM_WRAP_ATOMIC(64, long)
+#endif
